@@ -75,9 +75,11 @@ MustIgnore(c, e) == e.origin = "target" /\ TargetIsCluster(c)
 MayIgnore(c, e) == MustIgnore(c, e) \/ (c.mode = "replicate" /\ c.sname = "filer" /\ e.origin = "third")
 
 (* ------------------------------------------------------------ sink calls *)
-(* a call: [op, key, np, name, on, isdir, c, found, sigs] *)
+(* a call: [op, key, np, name, on, isdir, c, found, sigs, other]; sigs = the signatures
+   handed on to the target and other = "tell the target this change comes from another
+   cluster": both are what lets the opposite direction recognise the change as its own *)
 CallOk(c, e, k) ==
-  /\ k.sigs = e.sigs
+  /\ k.sigs = e.sigs /\ k.other
   /\ CASE k.op = "delete" -> k.key \in OldKeys(c, e) /\ k.isdir = e.isdir
        [] k.op = "create" -> /\ k.key \in NewKeys(c, e) /\ k.name = Name(e.new)
                              /\ k.isdir = e.isdir /\ (e.isdir \/ k.c = e.nc)
@@ -131,12 +133,28 @@ TreeOk(c, e, T, T2) ==
   ELSE \/ MayIgnore(c, e) /\ T2 = T
        \/ IF e.isdir THEN DirTreeOk(c, e, T, T2) ELSE FileTreeOk(c, e, T, T2, e.nc)
 
+(* ------------------------------------------------------------ named deviations (known findings) *)
+(* C36-sync-rename-into-dropped: genProcessFunction returns early when the OLD entry's
+   directory is outside the source path, so a move from outside into the watched
+   subtree produces no call (its "old key outside, new key inside => create" branch is dead) *)
+RenameIntoDropped(c, e, calls) ==
+  c.mode \in {"syncfn", "sync"} /\ IsRename(e) /\ ~OIn(c, e) /\ NIn(c, e) /\ calls = <<>>
+(* C36-localsink-rename-rewrites-old: LocalSink.UpdateEntry ignores the new parent / new name:
+   for a move within the subtree it (re)writes the new content at the OLD key and, when the old
+   file exists, reports found, so nothing is created at the new key and the old key stays *)
+LocalRenameRewritesOld(c, e, T, T2) ==
+  /\ c.sink = "local" /\ ~c.incr /\ ~e.isdir /\ IsRename(e) /\ OIn(c, e) /\ NIn(c, e)
+  /\ LET ok == MapC(c, e.old, <<>>) IN
+     /\ ok \in DOMAIN T /\ ok \in DOMAIN T2 /\ T2[ok] = e.nc
+     /\ \A k \in Dom2(T, T2) \ {ok} : Same(T, T2, k)
+
 (* ------------------------------------------------------------ reference applier (design level) *)
 Call(op, kc, npc, e, found) ==
   [op |-> op, key |-> KeyStr(kc), kc |-> kc, np |-> IF op = "update" THEN KeyStr(npc) ELSE "",
    nkc |-> IF op = "update" THEN npc \o <<Name(e.new)>> ELSE <<>>,
    name |-> IF op = "delete" THEN "" ELSE Name(e.new), on |-> IF op = "update" THEN Name(e.old) ELSE "",
-   isdir |-> e.isdir, c |-> IF op = "delete" \/ e.isdir THEN "" ELSE e.nc, found |-> found, sigs |-> e.sigs]
+   isdir |-> e.isdir, c |-> IF op = "delete" \/ e.isdir THEN "" ELSE e.nc, found |-> found, sigs |-> e.sigs,
+   other |-> TRUE]
 OneDate(c, e) == IF ~c.incr THEN <<>> ELSE IF e.new # <<>> THEN <<c.d2>> ELSE <<c.d1>>
 (* found = does the sink hold the old key *)
 RefCalls(c, e, found) ==
@@ -185,12 +203,14 @@ Sensible(T, e) ==
   /\ e.isdir => (e.old = <<>> \/ Below(T, e.old) = {})       \* only empty directories are deleted / moved
 CS(isdir) == IF isdir THEN {""} ELSE Contents
 (* filer.replicate is fed from the notification queue, which (at this commit) never
-   carries a move: a rename is published as create + delete.  Replicate has no move contract. *)
-KindsOf(c) == IF c.mode = "replicate" THEN Kinds \ {"rename"} ELSE Kinds
+   carries a move: a rename is published as create + delete.  Replicate has no move contract.
+   The end-to-end sync mode (real FilerSink) gets the events the filer publishes; moves are
+   judged on the event-processing function itself (mode "syncfn"). *)
+KindsOf(c) == IF c.mode \in {"replicate", "sync"} THEN Kinds \ {"rename"} ELSE Kinds
 EventsOf(c, isdir, o) ==
   LET PS == IF DirPaths = {} THEN Paths ELSE IF isdir THEN DirPaths ELSE FilePaths
       FS == IF c.sink = "rec" /\ ~Consistent THEN {TRUE, FALSE} ELSE {TRUE}
-      CC == IF isdir THEN {<<"", "">>} ELSE {<<"c1", "c2">>, <<"c2", "c1">>}
+      CC == IF isdir THEN {<<"", "">>} ELSE IF Consistent THEN {<<"c1", "c2">>, <<"c2", "c1">>} ELSE {<<"c1", "c2">>}
   IN (IF "create" \in KindsOf(c) THEN {Event("create", <<>>, p, isdir, o, TRUE, "", nc) : p \in PS, nc \in CS(isdir)} ELSE {})
      \cup (IF "delete" \in KindsOf(c) THEN {Event("delete", p, <<>>, isdir, o, TRUE, oc, "") : p \in PS, oc \in CS(isdir)} ELSE {})
      \cup (IF "update" \in KindsOf(c) THEN {Event("update", p, p, isdir, o, f, cc[1], cc[2]) : p \in PS, f \in FS, cc \in CC} ELSE {})
@@ -218,7 +238,10 @@ Step(e0) ==
      /\ hist' = Append(hist, e)
      /\ UNCHANGED cfg
 
-GenNext == /\ Len(hist) < MaxOps
+(* histories into the stateless recording sinks are single events (python packs them into
+   executions); histories into the local sink directory have MaxOps events *)
+MaxOpsOf(c) == IF c.sink = "local" \/ Consistent THEN MaxOps ELSE 1
+GenNext == /\ Len(hist) < MaxOpsOf(cfg)
            /\ \E e \in Events(cfg) : (Consistent => Sensible(srcT, e)) /\ Step(e)
 Spec == Init /\ [][GenNext]_vars
 
@@ -256,7 +279,7 @@ Mirror == (Consistent /\ ~cfg.incr) => dstT = Image(cfg, srcT)
 (* an incremental sink never loses a key *)
 IncrementalKeeps == [][cfg.incr => DOMAIN dstT \subseteq DOMAIN dstT']_vars
 
-Emit == Len(hist) < MaxOps \/ PrintT(<<"W", ToJson([cfg |-> cfg, ops |-> hist])>>)
+Emit == Len(hist) < MaxOpsOf(cfg) \/ PrintT(<<"W", ToJson([cfg |-> cfg, ops |-> hist])>>)
 View == <<cfg, srcT, dstT, IF hist = <<>> THEN <<>> ELSE hist[Len(hist)]>>
 MCView == <<cfg, srcT, dstT, last>>
 EmitW == hist = <<>> \/ PrintT(<<"W", ToJson([cfg |-> cfg, ops |-> hist])>>)
